@@ -1,7 +1,7 @@
 """Which units / lemmas / Kani harnesses decide which property."""
 import importlib
 
-UNIT_MODULES = ['cbc', 'pcbc', 'ige', 'cfb', 'cfb8', 'ofb', 'belt', 'ctr']
+UNIT_MODULES = ['cbc', 'pcbc', 'ige', 'cfb', 'cfb8', 'ofb', 'belt', 'ctr', 'lemmas']
 
 
 def load_units(names=None):
@@ -14,12 +14,19 @@ def load_units(names=None):
 
 # property -> units whose obligations (clauses tagged with the property) decide it
 PROP_UNITS = {
+    'C01': ['lemmas', 'cbc', 'pcbc', 'ige', 'cfb', 'cfb8', 'ofb', 'ctr', 'belt'],
     'C02': ['cbc', 'pcbc', 'ige'],
     'C03': ['cfb', 'cfb8', 'ofb'],
     'C04': ['ctr'],
     'C06': ['belt'],
+    'C07': ['lemmas', 'cbc', 'pcbc', 'ige', 'cfb', 'cfb8', 'ofb', 'ctr', 'belt'],
+    'C08': ['lemmas', 'cfb', 'cfb8', 'ofb', 'ctr', 'belt'],
+    'C09': ['lemmas', 'cbc', 'pcbc', 'ige', 'cfb', 'cfb8', 'ofb', 'ctr', 'belt'],
     'C10': ['ctr', 'belt'],
     'C11': ['ctr', 'belt'],
+    'C12': ['cbc', 'pcbc', 'ige', 'cfb', 'cfb8', 'ofb', 'ctr', 'belt'],
+    'C15': ['lemmas', 'cbc', 'pcbc', 'ige', 'cfb', 'cfb8', 'ofb', 'ctr', 'belt'],
+    'C17': ['cbc', 'pcbc', 'ige', 'cfb', 'cfb8', 'ofb', 'ctr', 'belt'],
 }
 
 
